@@ -101,7 +101,7 @@ CHECKS = {
         "groups": [
             {"name": "c08", "run": "^TestC08_", "shards": {"quick": 8, "thorough": 16},
              "timeout": {"quick": 900, "thorough": 3000},
-             "checks": ["c08-adapter-history", "c08-recovery-e2e"]},
+             "checks": ["c08-adapter-history", "c08-recovery-e2e", "c08-go-client"]},
         ],
     },
     "C01": {
